@@ -2,7 +2,8 @@
 Non-vacuity of `kv_refines_spec` for BOTH backends (the example in `Props/C11.lean` shows `CmdOk` for RocksDB
 only and evaluates the specification side only): `CmdOk` for Fjall, the instances of the theorem, and the
 evaluated answers of the byte-level MODEL on a history with two set keys, two value types under one
-key, an uncommitted batch, a dropped batch and a reopen.
+key, an uncommitted batch, a dropped batch and a reopen, in which type id 1 is DUAL-KIND (used as a
+key-of-set column and as a wide column; after the reopen the other kind touches it first).
 (Added by the statement audit; every theorem instantiates a theorem of `Props/C11.lean`.)
 -/
 import QbiceVerif.Props.C11
@@ -15,37 +16,32 @@ def nvCmds : List (Cmd Bool Bool Bool) :=
     .bop 1 (.put 0 false true [9]),      -- column 0 (wide): key `true`, value type `false`
     .bop 1 (.put 0 true true [8, 8]),    -- same key, OTHER value type
     .bop 1 (.ins 1 true false), .bop 1 (.ins 1 true true), .bop 1 (.ins 1 false true),
+    .bop 1 (.put 1 true true [7]),       -- type id 1 ALSO as a wide column (dual-kind)
     .get 0 false true, .scan 1 true,     -- uncommitted: invisible
     .commit 1,
     .get 0 false true, .get 0 true true, .get 0 true false, .scan 1 true, .scan 1 false,
     .bnew 2, .bop 2 (.del 0 false true), .bop 2 (.rem 1 true false), .drop 2,   -- dropped: no effect
-    .reopen, .get 0 false true, .scan 1 true ]
+    .reopen, .get 1 true true,           -- new session: the wide kind touches type id 1 first
+    .get 0 false true, .scan 1 true ]
 
-theorem nvCmds_ok_rocks : ∀ c ∈ nvCmds, CmdOk rocks exEnc exKind c := by
+theorem nvCmds_ok_rocks : ∀ c ∈ nvCmds, CmdOk rocks exEnc c := by
   intro c hc
   simp only [nvCmds, List.mem_cons, List.mem_nil_iff, or_false] at hc
-  rcases hc with rfl | rfl | rfl | rfl | rfl | rfl | rfl | rfl | rfl | rfl | rfl | rfl | rfl | rfl | rfl | rfl | rfl | rfl | rfl | rfl | rfl <;>
-    simp [CmdOk, OpOk, opKindOk, opFits, keyOver, rocks, exKind]
+  rcases hc with rfl | rfl | rfl | rfl | rfl | rfl | rfl | rfl | rfl | rfl | rfl | rfl | rfl | rfl | rfl | rfl | rfl | rfl | rfl | rfl | rfl | rfl | rfl <;>
+    simp [CmdOk, OpOk, opFits, keyOver, rocks]
 
-theorem nvCmds_ok_fjall : ∀ c ∈ nvCmds, CmdOk fjall exEnc exKind c := by
+theorem nvCmds_ok_fjall : ∀ c ∈ nvCmds, CmdOk fjall exEnc c := by
   intro c hc
   simp only [nvCmds, List.mem_cons, List.mem_nil_iff, or_false] at hc
-  rcases hc with rfl | rfl | rfl | rfl | rfl | rfl | rfl | rfl | rfl | rfl | rfl | rfl | rfl | rfl | rfl | rfl | rfl | rfl | rfl | rfl | rfl <;>
-    simp [CmdOk, OpOk, opKindOk, opFits, keyOver, fjall, exKind] <;> decide
-
-theorem exSerOk : SerOk exEnc exKind where
-  pfD := fun _ _ => encBool_pf
-  pfK := fun _ _ => encBool_pf
-  injK := fun _ _ => encBool_pf.injective
-  injE := fun _ _ => encBool_pf.injective
-  lenK := fun _ k => by cases k <;> simp [exEnc, encBool]
+  rcases hc with rfl | rfl | rfl | rfl | rfl | rfl | rfl | rfl | rfl | rfl | rfl | rfl | rfl | rfl | rfl | rfl | rfl | rfl | rfl | rfl | rfl | rfl | rfl <;>
+    simp [CmdOk, OpOk, opFits, keyOver, fjall] <;> decide
 
 /-- the instances of `kv_refines_spec` -/
 theorem nv_refines_rocks : AllMatch exEnc nvCmds (mrun rocks exEnc {} nvCmds) (srun Spec.init nvCmds) :=
-  kv_refines_spec rocks (Or.inl rfl) exEnc exKind exSerOk nvCmds nvCmds_ok_rocks
+  kv_refines_spec rocks (Or.inl rfl) exEnc exSerOk nvCmds nvCmds_ok_rocks
 
 theorem nv_refines_fjall : AllMatch exEnc nvCmds (mrun fjall exEnc {} nvCmds) (srun Spec.init nvCmds) :=
-  kv_refines_spec fjall (Or.inr rfl) exEnc exKind exSerOk nvCmds nvCmds_ok_fjall
+  kv_refines_spec fjall (Or.inr rfl) exEnc exSerOk nvCmds nvCmds_ok_fjall
 
 /-- what a client sees of a model observation: point reads and scans (`none` for the other commands) -/
 def see : MObs → Option (Option Bytes) × Option (List (Option Bytes))
@@ -54,13 +50,13 @@ def see : MObs → Option (Option Bytes) × Option (List (Option Bytes))
   | _ => (none, none)
 
 def expected : List (Option (Option Bytes) × Option (List (Option Bytes))) :=
-  [ (none, none), (none, none), (none, none), (none, none), (none, none), (none, none),
+  [ (none, none), (none, none), (none, none), (none, none), (none, none), (none, none), (none, none),
     (some none, none), (none, some []),
     (none, none),
     (some (some [9]), none), (some (some [8, 8]), none), (some none, none),
     (none, some [some [0], some [1]]), (none, some [some [1]]),
     (none, none), (none, none), (none, none), (none, none),
-    (none, none), (some (some [9]), none), (none, some [some [0], some [1]]) ]
+    (none, none), (some (some [7]), none), (some (some [9]), none), (none, some [some [0], some [1]]) ]
 
 /-- the byte-level model of BOTH backends answers: invisible before the commit; after it each value type its
     own value, the other key nothing, each set key exactly its members; the dropped batch changes nothing; the
